@@ -572,4 +572,18 @@ theorem blockUndone_good {K : Keys} {W : Tx → Prop} {rank : TxId → Nat} {u0 
   · obtain ⟨ge, gp⟩ := gen txs s' (fun X hX => ⟨hW X hX, hnd X hX⟩) (Env.refl _) start
     exact fin _ ge gp
 
+theorem expire_good {K : Keys} {W : Tx → Prop} {rank : TxId → Nat} {u0 : UT} {ν : OutPoint → Nat}
+    (U : Univ2 K W rank u0 ν) (old : List Nat) (s : State) (g : PGoodP K W u0 ν s) :
+    PGoodP K W u0 ν (expire K s old) := by
+  intro hp
+  exact PGood.of_env (expire_ok U old s (fun hp0 => g hp0) hp) (expire_env K s old)
+
+/-- BlockUndone followed by removeUnspendableCoinbaseSpends (4th `fix:` commit) -/
+theorem blockUndoneAt_good {K : Keys} {W : Tx → Prop} {rank : TxId → Nat} {u0 : UT} {ν : OutPoint → Nat}
+    (U : Univ2 K W rank u0 ν) (mf : Nat) (s s' : State) (uh : Nat) (txs : List Tx)
+    (hd : disconnectUtxo s = some (s', txs))
+    (hc : ChainOK u0 ν s) (g : PGoodP K W u0 ν s) (hI : InvR K W s)
+    (uc : UndoCommitTxs u0 ν s s' txs) : PGoodP K W u0 ν (blockUndoneAt K mf s' uh txs) :=
+  expire_good U _ _ (blockUndone_good U mf s s' txs hd hc g hI uc)
+
 end GocoinV.Mempool
